@@ -315,6 +315,12 @@ class Guards:
     def node_of_expr(self, e: ast.AST) -> Optional[int]:
         return self.g.node_containing(e)
 
+    def under(self, valuation: Dict[str, bool], seen: Optional[Set[int]] = None):
+        """(val, seen) for Prov.trace(..., under=...)"""
+        if seen is None:
+            seen = self.reach(valuation)
+        return self._val(valuation, seen), seen
+
     def value(self, valuation: Dict[str, bool], expr: ast.AST, seen: Optional[Set[int]] = None):
         """the value of a boolean expression under the valuation: True / False / the single residual sub-expression that decides it
         / None when more than one undecided operand remains"""
@@ -473,3 +479,73 @@ def private_helpers_of(repo: Repo, allowed_shorts: Iterable[str]) -> Set[str]:
                 allowed.add(f.qn)
                 changed = True
     return allowed
+
+
+def map_entries(paths) -> Set[Tuple[str, tuple]]:
+    """what a mapping value consists of, whatever way it was written:  {k: v for ...} / dict(zip(a, b)) / d[k] = v in a loop /
+    {**m, k: v} / m.copy().   Returns {('key' | 'value', source path)} where a component of zip(a0, a1) is (<a_i path>, 'zip<i>')
+    and other sources keep their provenance path."""
+    out: Set[Tuple[str, tuple]] = set()
+
+    def norm(src: tuple) -> tuple:
+        # (A.., 'argN:zip', 'elem', 'unpack:N') -> (A.., 'zipN')
+        s = list(src)
+        for i in range(len(s) - 2):
+            if s[i].startswith("arg") and s[i].endswith(":zip") and s[i + 1] == "elem" and s[i + 2].startswith("unpack:"):
+                return tuple(s[:i]) + (f"zip{s[i][3:-4]}",) + tuple(s[i + 3:])
+        return tuple(s)
+
+    for p in paths:
+        p = tuple(x for x in p if not x.startswith(("call:copy", "arg0:dict")) or x == "arg0:dict" and False)
+        p = tuple(x for x in p if x not in ("in:**",))
+        kind = None
+        cut = None
+        for i, st in enumerate(p):
+            # the outermost container decides (the last marker on the path)
+            if st == "in:key" or st.startswith("in:setkey@"):
+                kind, cut = "key", i
+            if st == "in:value" or st.startswith(("in:setitem@", "in:setval@")):
+                kind, cut = "value", i
+        if kind is not None:
+            out.add((kind, norm(p[:cut])))
+            continue
+        # dict(zip(a, b)):  (A.., 'argN:zip')  [the arg0:dict step was removed above]
+        if p and p[-1].startswith("arg") and p[-1].endswith(":zip"):
+            n = p[-1][3:-4]
+            out.add(("key" if n == "0" else "value", tuple(p[:-1]) + (f"zip{n}",)))
+            continue
+        if len(p) == 1 and p[0].startswith("fresh:"):
+            continue
+        out.add(("whole", p))
+    return out
+
+
+def container_additions(f: FuncInfo, is_target: Callable[[ast.AST], bool]):
+    """every way elements are put into the container(s) selected by `is_target(receiver expression)`:
+    yields (element expression, comprehension filters, site node) for  X.add(e) / X.append(e) / X.update(<comp>) / X.extend(<comp>) /
+    X.update([e, ..]) / X |= <comp> / X = <comp> / X = {e, ..}"""
+    out = []
+
+    def from_value(v, site):
+        if isinstance(v, (ast.ListComp, ast.SetComp, ast.GeneratorExp)):
+            conds = [c for g_ in v.generators for c in g_.ifs]
+            out.append((v.elt, conds, site, v))
+        elif isinstance(v, (ast.List, ast.Set, ast.Tuple)):
+            for e in v.elts:
+                out.append((e, [], site, None))
+        elif isinstance(v, ast.Call) and isinstance(v.func, ast.Name) and v.func.id in ("set", "list", "frozenset", "tuple") and len(v.args) == 1:
+            from_value(v.args[0], site)
+        else:
+            out.append((v, None, site, None))      # conds None: not an element-wise form
+
+    for n in ast.walk(f.node):
+        if isinstance(n, ast.Call) and isinstance(n.func, ast.Attribute) and is_target(n.func.value):
+            if n.func.attr in ("add", "append") and len(n.args) == 1:
+                out.append((n.args[0], [], n, None))
+            elif n.func.attr in ("update", "extend") and len(n.args) == 1:
+                from_value(n.args[0], n)
+        elif isinstance(n, ast.AugAssign) and isinstance(n.op, (ast.BitOr, ast.Add)) and is_target(n.target):
+            from_value(n.value, n)
+        elif isinstance(n, ast.Assign) and any(is_target(t) for t in n.targets):
+            from_value(n.value, n)
+    return out
